@@ -403,9 +403,41 @@ class C02(Check):
                 for mod, ext in ((gzip, '.gz'), (bz2, '.bz2'), (lzma, '.xz')):
                     with mod.open(path + ext, 'wb') as zf:
                         zf.write(blob)
-                for kind in ('BytesIO', 'BufferedReader-over-BytesIO', 'file-unbuffered', 'file-buffered', 'gzip-file', 'bz2-file', 'lzma-file'):
+                import mmap
+
+                class Window:
+                    """a hand-written seekable reader (read / seek / tell only) over a part of a container file"""
+
+                    def __init__(self, data, start):
+                        self.data, self.start, self.pos = data, start, 0
+
+                    def read(self, n=-1):
+                        end = len(self.data) - self.start if n is None or n < 0 else min(self.pos + n, len(self.data) - self.start)
+                        r = self.data[self.start + self.pos:self.start + end]
+                        self.pos = max(self.pos, end)
+                        return r
+
+                    def seek(self, off, whence=0):
+                        self.pos = off if whence == 0 else self.pos + off if whence == 1 else len(self.data) - self.start + off
+                        return self.pos
+
+                    def tell(self):
+                        return self.pos
+
+                    def close(self):
+                        pass
+
+                def named_temporary():
+                    t = tempfile.NamedTemporaryFile(prefix='verif_c02_nt_')
+                    t.write(blob)
+                    t.flush()
+                    return t
+                for kind in ('BytesIO', 'BufferedReader-over-BytesIO', 'file-unbuffered', 'file-buffered', 'gzip-file', 'bz2-file', 'lzma-file',
+                             'NamedTemporaryFile', 'mmap', 'hand-written-reader-over-a-container'):
                     for entry in ('kd', 'kd-same-parser', 'facade'):
-                        st = {'BytesIO': lambda: io.BytesIO(blob), 'BufferedReader-over-BytesIO': lambda: io.BufferedReader(io.BytesIO(blob), buffer_size=128),
+                        st = {'NamedTemporaryFile': named_temporary, 'mmap': lambda: mmap.mmap(os.open(path, os.O_RDONLY), 0, access=mmap.ACCESS_READ),
+                              'hand-written-reader-over-a-container': lambda: Window(b'container header' + blob, 16),
+                              'BytesIO': lambda: io.BytesIO(blob), 'BufferedReader-over-BytesIO': lambda: io.BufferedReader(io.BytesIO(blob), buffer_size=128),
                               'file-unbuffered': lambda: open(path, 'rb', buffering=0), 'file-buffered': lambda: open(path, 'rb'),
                               'gzip-file': lambda: gzip.open(path + '.gz', 'rb'), 'bz2-file': lambda: bz2.open(path + '.bz2', 'rb'),
                               'lzma-file': lambda: lzma.open(path + '.xz', 'rb')}[kind]()
@@ -434,6 +466,40 @@ class C02(Check):
                 for ext in ('', '.gz', '.bz2', '.xz'):
                     if os.path.exists(path + ext):
                         os.unlink(path + ext)
+            # a parse that was started on the same parser object, not read to its end and is still REFERENCED (a kept generator; the
+            # traceback of a consumer that raised) does not stand in the way of the next, complete parse
+            for a, b in itertools.product(sorted(H_DUMPS), repeat=2):
+                for how in ('generator-kept', 'consumer-raised-and-the-error-is-kept', 'generator-created-not-started'):
+                    blob_a = build(*H_DUMPS[a])[0]
+                    blob_b, threads_b, recs_b = build(*H_DUMPS[b])
+                    tp, pn = {}, {}
+                    pk = KdBufParser(tp, pn)
+                    kept = []
+                    try:
+                        g = pk.parse(io.BytesIO(blob_a))
+                        if how == 'generator-kept':
+                            next(g, None)
+                            kept.append(g)
+                        elif how == 'generator-created-not-started':
+                            kept.append(g)
+                        else:
+                            def consumer(gen):
+                                for e in gen:
+                                    raise KeyError('the consumer failed')
+                            try:
+                                consumer(g)
+                            except KeyError as ex:
+                                kept.append(ex)
+                        got = [obs_event(e) for e in pk.parse(io.BytesIO(blob_b))]
+                        err = None
+                    except Exception as ex:
+                        got, err = None, type(ex).__name__ + ': ' + str(ex)[:80]
+                    acc.case(nontrivial=True, transitions=2, outcome=h64(('abandoned', a, b, how)))
+                    exp_tp, exp_pn = thread_tables(threads_b)
+                    if err or got != [ref_decode(r) for r in recs_b] or (tp, pn) != (exp_tp, exp_pn):
+                        acc.violation('v2-parse-after-an-unfinished-parse-on-the-same-object', {'kind': 'long', 'first': a, 'second': b, 'how': how},
+                                      {'err': err, 'got_n': None if got is None else len(got), 'tables': repr((tp, pn))[:160]})
+                    del kept
             # the dump does not begin at stream position 0 (every pad kind, with and without thread map)
             for off in (1, 7, 8, 63, 64, 0x100, 0x120, 0x123, 4000, 4091, 4096, 4100):
                 for tm in ((), (0,), (0, 1)):
